@@ -11,8 +11,8 @@ import loadrun as L
 PROPERTY = 'C11'
 LEAN_MODULES = ['YatimlModel.Props.C11']
 THEOREMS = ['YatimlModel.C11.' + t for t in [
-    'C11_step_preserves_bases', 'C11_base_untouched', 'C11_own_tables_fresh', 'C11_isolated',
-    'C11_visible_depends_only_on_own_set']]
+    'translation_complete', 'progs_checked', 'C11_base_untouched', 'C11_isolated', 'C11_call_state',
+    'C11_call_is_noop_on_world']] + ['YatimlModel.Reg.explore_sound', 'YatimlModel.Reg.runProg_frame', 'YatimlModel.Reg.run_inv']
 RULE = ('random histories of creating load / dump / JSON-dump functions over different class sets '
         '(including same-named classes of different models) and calling them on valid and invalid '
         'inputs, sequentially and from concurrent threads: every call result equals the result the same '
@@ -27,7 +27,132 @@ PROBES = ['a: 1\nb: [true, 1.5, null, 2001-01-01]\n', 'yes', '1e5', '!!python/na
 
 
 def translate(ctx):
-    return []
+    import translate_registry as TR
+    return TR.generate()
+
+
+# ---- shape correspondence: where attributes resolve, model vs live objects -----------------------
+
+def canon(text):
+    """rename own-level table indices by order of first appearance; keep base indices"""
+    import re
+    seen = {}
+
+    def sub(m):
+        lvl, idx = m.group(1), m.group(2)
+        if lvl == '0':
+            return m.group(0)
+        key = (lvl, idx)
+        if key not in seen:
+            seen[key] = len(seen)
+        return 't{}.#{}'.format(lvl, seen[key]) + m.group(3)
+    return re.sub(r't(\d)\.(\d+)(/\d)', sub, text)
+
+
+def real_shape(obj, level, attrs, tr, lower):
+    """`lower`: list of (level, object) whose dicts count as lower-level tables"""
+    import yaml  # noqa
+    out = []
+    base_tbl = tr['tbl_idx']
+    base_lists = {}
+    for lvl, o in lower:
+        for klass in (o.__mro__ if isinstance(o, type) else [o]):
+            for v in vars(klass).values():
+                if isinstance(v, dict):
+                    for x in v.values():
+                        if isinstance(x, list):
+                            base_lists.setdefault(id(x), 0 if id(v) in base_tbl else lvl)
+    own_ids = {}
+    for a in attrs:
+        name = tr['rev'][a]
+        own = name in vars(obj)
+        missing = object()
+        v = getattr(obj, name, missing)
+        if v is missing:
+            val = 'missing'
+        elif v is None:
+            val = 'none'
+        elif isinstance(v, dict):
+            inner = 3
+            for x in v.values():
+                if isinstance(x, list):
+                    inner = min(inner, base_lists.get(id(x), level))
+            if id(v) in base_tbl:
+                val = 't0.{}/{}'.format(base_tbl[id(v)], inner)
+            else:
+                lvl = level
+                for l2, o in lower:
+                    if l2 >= 1 and any(v is w for w in vars(o).values()):
+                        lvl = l2
+                val = 't{}.{}/{}'.format(lvl, own_ids.setdefault(id(v), 100 + len(own_ids)), inner)
+        else:
+            val = 'atom'
+        out.append('{}:{}:{}'.format(a, 1 if own else 0, val))
+    return ' '.join(out)
+
+
+def norm_inner(text):
+    """an empty / list-free table has inner 3 on the real side whatever the model says for its level"""
+    import re
+    return re.sub(r'(t(\d)\.[#\d]+)/(\d)', lambda m: m.group(1) + ('/own' if int(m.group(3)) >= int(m.group(2)) else '/shared' + m.group(3)), text)
+
+
+def shape_cases(ctx, yatiml, tr):
+    import io
+    rng = ctx.rng
+    kinds = list(tr['factory'])
+    attrs = sorted(tr['names'][n] for n in tr['attr_names'] if n in tr['names'])
+    tr['rev'] = {v: k for k, v in tr['names'].items()}
+    made = []
+    lines = []
+    n = ctx.budget(30, 200)
+    for i in range(n):
+        kind = rng.choice(kinds)
+        spec, cands = G.gen_model(rng)
+        try:
+            model = CM.Model(spec)
+        except Exception:  # noqa
+            continue
+        k = rng.choice([0, 1, len(model.registered)])
+        classes = model.registered[:k]
+        if kind == 'load_function':
+            fn = yatiml.load_function(*classes) if classes else yatiml.load_function()
+            cls = fn.loader
+            nloop = max(0, len(classes))
+            inst = cls('')
+        else:
+            fn = getattr(yatiml, kind)(*classes)
+            cls = fn.dumper
+            nloop = len(classes)
+            inst = cls(io.StringIO(), None, False, None, None, None, None, None, None, None, None, None, None, False)
+        made.append((kind, nloop, cls, inst))
+        # some use in between
+        if rng.random() < 0.5 and kind != 'load_function' and not kind.startswith('dump_'):
+            try:
+                fn([1, 'a'])
+            except Exception:  # noqa
+                pass
+    for kind, nloop, cls, inst in made:
+        kid = tr['names']['kind:' + kind]
+        lines.append('regshape {} ( {} ) ( 7 7 ) ( {} )'.format(kid, nloop, ' '.join(map(str, attrs))))
+    answers = ctx.driver(lines) if lines else []
+    for (kind, nloop, cls, inst), ans in zip(made, answers):
+        ctx.count('shape_cases')
+        ctx.case(('shape', kind, min(nloop, 2)), nontrivial=nloop > 0)
+        parts = ans.split(' | ')
+        if len(parts) != 3 or not parts[0].startswith('ok true true true'):
+            ctx.disagree('model run not clean: ' + ans[:200], dict(key='shape-model', kind=kind, classes=nloop))
+            continue
+        want_cls = norm_inner(canon(parts[1]))
+        want_inst = norm_inner(canon(parts[2])).replace(':1:none', ':1:atom')
+        got_cls = norm_inner(canon(real_shape(cls, 1, attrs, tr, [(0, cls.__mro__[1])])))
+        got_inst = norm_inner(canon(real_shape(inst, 2, attrs, tr, [(0, cls.__mro__[1]), (1, cls)]))).replace(':1:none', ':1:atom')
+        if want_cls != got_cls:
+            ctx.disagree('class of a {} over {} classes: model {} real {}'.format(kind, nloop, want_cls, got_cls),
+                         dict(key='shape-class', kind=kind, classes=nloop))
+        if want_inst != got_inst:
+            ctx.disagree('instance of a {} over {} classes: model {} real {}'.format(kind, nloop, want_inst, got_inst),
+                         dict(key='shape-inst', kind=kind, classes=nloop))
 
 
 def base_snapshot(yaml, yatiml):
@@ -47,6 +172,16 @@ def base_snapshot(yaml, yatiml):
                                                        for k, x in v.items())))
                 else:
                     snap[(name, attr)] = repr(v)
+    import sys
+    for modname, mod in sorted(sys.modules.items()):
+        if modname == 'yatiml' or modname.startswith('yatiml.'):
+            for k, v in sorted(vars(mod).items()):
+                if isinstance(v, (dict, list, set)) and not k.startswith('__'):
+                    snap[('module', modname, k)] = repr(v)[:2000]
+                if isinstance(v, type) and getattr(v, '__module__', '') == modname:
+                    for k2, v2 in sorted(vars(v).items()):
+                        if isinstance(v2, (list, set)) or (isinstance(v2, dict) and not k2.startswith('yaml_')):
+                            snap[('class', modname, k, k2)] = repr(v2)[:2000]
     for i, t in enumerate(PROBES):
         try:
             snap[('safe_load', i)] = repr(yaml.safe_load(t))
@@ -54,6 +189,19 @@ def base_snapshot(yaml, yatiml):
             snap[('safe_load', i)] = type(e).__name__
     snap['safe_dump'] = yaml.safe_dump({'a': [1, 'yes', 1.5, None], 'b': '1e5'})
     return snap
+
+
+def user_snapshot(model):
+    out = {}
+    for n, c in model.classes.items():
+        items = []
+        for k2, v in sorted(vars(c).items()):
+            if callable(v) or isinstance(v, (staticmethod, classmethod, property)) or k2.startswith('__'):
+                items.append((k2, type(v).__name__))
+            else:
+                items.append((k2, repr(v)))
+        out[n] = items
+    return out
 
 
 def call_result(fn, arg, model):
@@ -69,6 +217,13 @@ def explore(ctx):
     yaml, yatiml = L.setup()
     rng = ctx.rng
     before = base_snapshot(yaml, yatiml)
+    import translate_registry as TR
+    tr = TR.build()
+    if tr['errors'] or tr['census']:
+        ctx.disagree('translator: untranslated {} census {}'.format(tr['errors'][:2], tr['census'][:2]),
+                     dict(key='translator'))
+    shape_cases(ctx, yatiml, tr)
+    defaults_family(ctx, yatiml)
     nhist = ctx.budget(40, 600)
     for h in range(nhist):
         funcs = []       # (kind, model, fn, type, inputs)
@@ -91,7 +246,10 @@ def explore(ctx):
                     fn = yatiml.dumps_function(*model.registered) if kind == 'dumps' else \
                         yatiml.dumps_json_function(*model.registered)
                     inputs = [D.gen_value(rng, model, t) for _ in range(2)]
-                attrs_before = {n: sorted(k2 for k2 in vars(c).keys()) for n, c in model.classes.items()}
+                    if rng.random() < 0.5:
+                        shared = [1, 2]
+                        inputs.insert(rng.randint(0, 2), [0, shared, {'k': shared}])   # JSON: aliases raise mid-dump
+                attrs_before = user_snapshot(model)
                 funcs.append((kind, model, fn, t, inputs, spec, attrs_before))
             except (D.GenFail, G.GenFail):
                 continue
@@ -164,7 +322,7 @@ def explore(ctx):
                                   dict(key='threads:' + funcs[key[0]][0]))
                     break
         for (kind, model, fn, t, inputs, spec, attrs_before) in funcs:
-            now = {n: sorted(k2 for k2 in vars(c).keys()) for n, c in model.classes.items()}
+            now = user_snapshot(model)
             if now != attrs_before:
                 ctx.violation('user classes were modified', dict(key='userclass', classes=model.source[-1500:]))
         after = base_snapshot(yaml, yatiml)
@@ -175,6 +333,71 @@ def explore(ctx):
             before = after
         if len(ctx.samples) < 2:
             ctx.sample(dict(functions=[(f[0], repr(f[3])[:60]) for f in funcs], calls=len(order)))
+
+
+def defaults_family(ctx, yatiml):
+    """classes with `_yatiml_defaults` and a sweeten that drops defaulted attributes, a subclass with
+    other defaults, several dump functions: the user's classes stay as written and results do not
+    depend on what was dumped before"""
+    rng = ctx.rng
+    for i in range(ctx.budget(20, 200)):
+        names = rng.sample(['alpha', 'beta', 'gamma', 'delta', 'tags', 'sides'], 3)
+        d1 = {names[1]: rng.choice([[], 0, 'x', 4]), names[2]: rng.choice([[], 1, 'y', 3])}
+        d2 = {names[1]: rng.choice([[], 0, 'x', 5]), names[2]: rng.choice([[], 2, 'z', 3])}
+        listed = rng.sample(names[1:], rng.randint(0, 2))
+        srcs = [
+            'import yatiml',
+            'class Base{i}:',
+            '    def __init__(self, {a}: str, {b}={db!r}, {c}={dc!r}) -> None:',
+            '        self.{a} = {a}; self.{b} = {b}; self.{c} = {c}',
+            '    _yatiml_defaults = {ud!r}',
+            '    @classmethod',
+            '    def _yatiml_sweeten(cls, node: yatiml.Node) -> None:',
+            '        node.remove_attributes_with_default_values(cls)',
+            'class Derived{i}(Base{i}):',
+            '    def __init__(self, {a}: str, {b}={eb!r}, {c}={ec!r}) -> None:',
+            '        super().__init__({a}, {b}, {c})',
+        ]
+        ud = {k: d1[k] for k in listed}
+        text = '\n'.join(srcs).format(i=i, a=names[0], b=names[1], c=names[2], db=d1[names[1]], dc=d1[names[2]],
+                                      eb=d2[names[1]], ec=d2[names[2]], ud=ud)
+        ns = {}
+        try:
+            exec(text, ns)
+        except Exception:  # noqa
+            ctx.count('defaults_gen_error')
+            continue
+        base, derived = ns['Base{}'.format(i)], ns['Derived{}'.format(i)]
+        vals = [base('n'), base('n', d1[names[1]], d1[names[2]]), derived('m'),
+                derived('m', d2[names[1]], d2[names[2]]), base('n', d2[names[1]], d1[names[2]])]
+        snap = repr(sorted((k, repr(v)) for c in (base, derived) for k, v in vars(c).items()
+                           if not callable(v) and not k.startswith('__') and not isinstance(v, classmethod)))
+
+        def results(order):
+            out = {}
+            f1, f2 = yatiml.dumps_function(base, derived), yatiml.dumps_function(derived, base)
+            for j in order:
+                for fi, f in enumerate((f1, f2)):
+                    try:
+                        out[(j, fi)] = f(vals[j])
+                    except Exception as e:  # noqa
+                        out[(j, fi)] = type(e).__name__
+            return out
+        order = list(range(len(vals)))
+        first = results(order)
+        rng.shuffle(order)
+        second = results(order)
+        ctx.count('defaults_families')
+        ctx.case(('defaults', text), nontrivial=bool(listed))
+        now = repr(sorted((k, repr(v)) for c in (base, derived) for k, v in vars(c).items()
+                          if not callable(v) and not k.startswith('__') and not isinstance(v, classmethod)))
+        if now != snap:
+            ctx.violation('dumping changed the user\'s classes: {} -> {}'.format(snap[:200], now[:200]),
+                          dict(key='userclass-defaults', classes=text))
+        elif first != second:
+            diff = [k for k in first if first[k] != second[k]]
+            ctx.violation('a dump result depends on what was dumped before: {!r} vs {!r}'.format(
+                first[diff[0]], second[diff[0]]), dict(key='history-defaults', classes=text))
 
 
 def search(ctx, broken):
